@@ -114,7 +114,7 @@ def one_case(ctx, k):
     os.makedirs(d, exist_ok=True)
     try:
         demux = rng.choice([None, None, None, None, "normal", "combinatorial"]) if ctx.tier == "thorough" or k % 3 == 0 else None
-        sc = F.observe(ctx, rng, d, dict(demux=demux, trace=False, paired_p=1.0, interleaved_p=0.25, mixed_layout_p=0.25))
+        sc = F.observe(ctx, rng, d, dict(demux=demux, trace=False, paired_p=1.0, interleaved_p=0.25, mixed_layout_p=0.25, revcomp_p=0.15))
         if sc is None:
             return
         sc.case["k"] = k
@@ -122,6 +122,9 @@ def one_case(ctx, k):
         if sc.interleaved_out:
             ctx.count("interleaved_output_runs")
         ctx.count(f"cores:{sc.cores}")
+        if getattr(sc, "revcomp", False):
+            ctx.count("revcomp_runs")
+            ctx.count("revcomp_pairs_swapped_and_trimmed", sum(1 for a, b in zip(sc.base[1], sc.base[2]) if a["swapped"] and (a["trimmed"] or b["trimmed"])))
         evaluate(ctx, sc, d)
         ctx.sample(dict(argv=sc.argv, fates={f: list(sc.fates.values()).count(f) for f in set(sc.fates.values())}), limit=5)
     finally:
